@@ -19,7 +19,7 @@ import json
 import os
 import sys
 
-MODULES = ['operator', 'list', 'logic', 'string', 'inquiry']
+MODULES = ['operator', 'list', 'logic', 'string', 'inquiry', 'net']
 CHECKER_HELPERS = {'RulesChecker': ['_check_satisfied']}
 CHECKER_CLASSES = ['StringExactChecker', 'StringFuzzyChecker', 'RegexChecker', 'RulesChecker']
 
@@ -306,6 +306,14 @@ class Translator:
         if isinstance(e, ast.Call) and isinstance(e.func, ast.Attribute) and e.func.attr == '_parse' and \
                 isinstance(e.func.value, ast.Name) and e.func.value.id == 'cls' and len(e.args) == 1 and not e.keywords:
             return '(parseM %s)' % self.expr(e.args[0], env, cname)
+        if isinstance(e, ast.Call) and not e.keywords and isinstance(e.func, ast.Attribute) and e.func.attr == 'match' and \
+                isinstance(e.func.value, ast.Attribute) and e.func.value.attr == 'regex' and \
+                isinstance(e.func.value.value, ast.Name) and e.func.value.value.id == 'self' and len(e.args) == 1:
+            self.attrs.add('regex')                    # the compiled pattern stands for its pattern text
+            return '(reMatchM (pure self_regex) %s)' % self.expr(e.args[0], env, cname)
+        if isinstance(e, ast.Call) and not e.keywords and isinstance(e.func, ast.Name) and e.func.id == 'str' and \
+                len(e.args) == 1 and getattr(self, 'effect_mode', None) is None and cname in ('RegexMatch',):
+            return '(strPyM %s)' % self.expr(e.args[0], env, cname)
         if isinstance(e, ast.Call) and not e.keywords:
             f = e.func
             if isinstance(f, ast.Name):
@@ -592,11 +600,13 @@ class Translator:
         if not calls:
             return None
         node = calls[0]
-        if node.keywords or any(not isinstance(a, (ast.Name, ast.Constant, ast.Attribute)) for a in node.args):
-            raise Untranslatable('storage call with star / keyword / computed arguments')
+        star = len(node.args) == 1 and isinstance(node.args[0], ast.Starred) and isinstance(node.args[0].value, ast.Name) and \
+            len(node.keywords) == 1 and node.keywords[0].arg is None and isinstance(node.keywords[0].value, ast.Name)
+        if not star and (node.keywords or any(not isinstance(a, (ast.Name, ast.Constant, ast.Attribute)) for a in node.args)):
+            raise Untranslatable('storage call with keyword / computed arguments')
         self.fresh += 1
         r, w, tmp = 'r%d' % self.fresh, 'w%d' % self.fresh, '__r%d' % self.fresh
-        args = [self.expr(a, env, cname) for a in node.args]
+        args = [] if star else [self.expr(a, env, cname) for a in node.args]
         node._hoist = True
         s2 = copy.deepcopy(s)
         del node._hoist
@@ -611,6 +621,11 @@ class Translator:
         env2[tmp] = '(pure %s)' % r
         env2['__w'] = '(pure %s)' % w
         nxt = rest if (isinstance(s, ast.Expr) and s.value is node) else [s2] + rest
+        if star:
+            # m(*args, **kwargs): the arguments are passed on as they came
+            return '(stCallStarM "%s" "%s" %s %s %s fun %s %s =>\n      %s)' % (
+                node.func.value.attr, node.func.attr, env[node.args[0].value.id], env[node.keywords[0].value.id], env['__w'], r, w,
+                self.block(nxt, env2, cname, end, brk))
         return '(stCallM "%s" "%s" [%s] %s fun %s %s =>\n      %s)' % (
             node.func.value.attr, node.func.attr, ', '.join(args), env['__w'], r, w,
             self.block(nxt, env2, cname, end, brk))
@@ -1013,6 +1028,21 @@ class Translator:
                 env3[name] = '(pure (stGet %s %d))' % (r, i)
             return '(pyForS %s (fun %s %s %s %s =>\n      %s)\n      %s\n      (fun %s => %s))' % (
                 self.expr(s.iter, env, cname), x, st, k, b, body, vals(env), r, self.block(rest, env3, cname, end, brk))
+        if isinstance(s, ast.Try) and not s.orelse and not s.finalbody and len(s.handlers) == 1 and \
+                isinstance(s.handlers[0].type, ast.Name) and s.handlers[0].type.id == 'ValueError' and len(s.body) == 2 and \
+                all(isinstance(b, ast.Assign) and len(b.targets) == 1 and isinstance(b.targets[0], ast.Name) and
+                    isinstance(b.value, ast.Call) and isinstance(b.value.func, ast.Attribute) and
+                    isinstance(b.value.func.value, ast.Name) and b.value.func.value.id == 'ipaddress' and
+                    len(b.value.args) == 1 for b in s.body) and \
+                [b.value.func.attr for b in s.body] == ['ip_address', 'ip_network'] and len(rest) == 1 and \
+                isinstance(rest[0], ast.Return) and isinstance(rest[0].value, ast.Compare) and \
+                isinstance(rest[0].value.ops[0], ast.In) and isinstance(rest[0].value.left, ast.Name) and \
+                rest[0].value.left.id == s.body[0].targets[0].id and isinstance(rest[0].value.comparators[0], ast.Name) and \
+                rest[0].value.comparators[0].id == s.body[1].targets[0].id:
+            # ip = ipaddress.ip_address(a); net = ipaddress.ip_network(n) under `except ValueError`, then `return ip in net`
+            return '(ipInNetM %s %s\n      %s)' % (self.expr(s.body[0].value.args[0], env, cname),
+                                                   self.expr(s.body[1].value.args[0], env, cname),
+                                                   self.block([b for b in s.handlers[0].body if not is_log_call(b)], env, cname, end, brk))
         if isinstance(s, ast.Try) and not s.orelse and not s.finalbody and len(s.handlers) == 1 and \
                 isinstance(s.handlers[0].type, ast.Name):
             h = s.handlers[0]
@@ -1493,7 +1523,7 @@ def translate_migration(repo):
     return '\n'.join(out) + '\n', [('migration', c, []) for c in done], [('migration', c, r) for c, r in failed]
 
 
-ENFOLD_METHODS = ['add', 'update', 'delete', 'get', 'get_all', 'populate']
+ENFOLD_METHODS = ['add', 'update', 'delete', 'get', 'get_all', 'populate', 'retrieve_all']
 
 
 SQL_METHODS = ['add', 'get', 'update', 'delete']
@@ -1737,7 +1767,7 @@ def translate_memory(repo):
     return '\n'.join(out) + '\n', [('memory', c, a) for c, a in done], [('memory', c, r) for c, r in failed]
 
 
-OBSERVABLE_METHODS = ['add', 'update', 'delete', 'get', 'get_all']
+OBSERVABLE_METHODS = ['add', 'update', 'delete', 'get', 'get_all', 'retrieve_all']
 
 
 def translate_observable(repo):
@@ -1751,7 +1781,9 @@ def translate_observable(repo):
         try:
             f = tr.method('ObservableMutationStorage', m)
             params = [a.arg for a in f.args.args]
-            if f.args.vararg or f.args.kwarg:
+            if f.args.vararg and f.args.kwarg:
+                params += [f.args.vararg.arg, f.args.kwarg.arg]        # the two collections, as values
+            elif f.args.vararg or f.args.kwarg:
                 raise Untranslatable('star parameters')
             tr.attrs, tr.fresh = set(), 0
             env = {p: '(pure p_%s)' % p for p in params}
@@ -1783,7 +1815,9 @@ def translate_enfold(repo):
         try:
             f = tr.method('EnfoldCache', m)
             params = [a.arg for a in f.args.args]
-            if f.args.vararg or f.args.kwarg:
+            if f.args.vararg and f.args.kwarg:
+                params += [f.args.vararg.arg, f.args.kwarg.arg]        # the two collections, as values
+            elif f.args.vararg or f.args.kwarg:
                 raise Untranslatable('star parameters')
             tr.attrs, tr.fresh = set(), 0
             env = {p: '(pure p_%s)' % p for p in params}
